@@ -103,7 +103,17 @@ var baseAttrs = map[int]baseAttr{
 	1: {0, "bip84", 8, false}, 2: {0, "bip86", 4, false}, 3: {0, "bip86", 2, false},
 	4: {1, "bip84", 1, false}, 5: {0, "bip84", 16, true}, 6: {0, "bip86", 32, false},
 	7: {0, "bip49", 64, false}, 8: {0, "bip44", 128, false},
-	9: {2, "bip84", 256, false}, // account 2 of the model = the imported-keys account
+	9:  {2, "bip84", 256, false}, // account 2 of the model = the imported-keys account
+	10: {2, "bip44", 512, false}, // a second imported key, in another key scope
+}
+
+// chgAcct is the account that receives the change of a request made from the
+// model's account a: imported keys have no change branch, the wallet uses account 0.
+func chgAcct(a int) int {
+	if a == 2 {
+		return 0
+	}
+	return a
 }
 
 // acctNum maps the model's account to the wallet's account number.
@@ -297,7 +307,7 @@ func replaySpend(idx int, line []byte, prop string, seed int, root string, rep *
 		}
 		if exp != nil {
 			w.observe(exp)
-			if st.Op == "Restart" || st.Op == "RestartRej" {
+			if st.Op == "Restart" || st.Op == "RestartRej" || st.Op == "Resync" || st.Op == "ResyncRej" {
 				w.checkResend(exp)
 			}
 		}
@@ -399,10 +409,11 @@ func (w *spWorld) setup() error {
 				return werr
 			}
 			sc := scopeOf[at.scope]
-			if _, err = e.w.ImportPrivateKey(sc, wif, nil, false); err != nil {
+			var as string
+			if as, err = e.w.ImportPrivateKey(sc, wif, nil, false); err != nil {
 				return fmt.Errorf("ImportPrivateKey: %w", err)
 			}
-			addr, err = btcutil.NewAddressWitnessPubKeyHash(btcutil.Hash160(priv.PubKey().SerializeCompressed()), e.params)
+			addr, err = btcutil.DecodeAddress(as, e.params)
 		} else {
 			addr, err = e.w.NewAddress(at.acct, scopeOf[at.scope])
 		}
@@ -558,9 +569,9 @@ func (w *spWorld) checkCreated(what string, tx *wire.MsgTx, amount int64, wantIn
 			ma, err := w.e.w.AddressInfo(addrs[0])
 			if err != nil {
 				w.add("inputs", what+": change does not pay a wallet address", err.Error(), "wallet change address")
-			} else if !ma.Internal() || ma.InternalAccount() != uint32(a.Acct) {
+			} else if !ma.Internal() || ma.InternalAccount() != uint32(chgAcct(a.Acct)) {
 				w.add("inputs", what+": change address", fmt.Sprintf("internal=%v account=%d", ma.Internal(), ma.InternalAccount()),
-					fmt.Sprintf("internal=true account=%d", a.Acct))
+					fmt.Sprintf("internal=true account=%d", chgAcct(a.Acct)))
 			}
 		}
 	}
@@ -676,9 +687,9 @@ func (w *spWorld) apply(st *spStep, a *spArgs, rep *common.Report) error {
 			label = strings.Repeat("x", wtxmgr.TxLabelLimit+1)
 		}
 		if st.Op == "SendExplicit" {
-			tx, err = e.w.SendOutputsWithInput(outs, &scope, uint32(a.Acct), int32(a.Mc), 1000, wallet.CoinSelectionLargest, label, sel)
+			tx, err = e.w.SendOutputsWithInput(outs, &scope, acctNum(a.Acct), int32(a.Mc), 1000, wallet.CoinSelectionLargest, label, sel)
 		} else {
-			tx, err = e.w.SendOutputs(outs, &scope, uint32(a.Acct), int32(a.Mc), 1000, wallet.CoinSelectionLargest, label)
+			tx, err = e.w.SendOutputs(outs, &scope, acctNum(a.Acct), int32(a.Mc), 1000, wallet.CoinSelectionLargest, label)
 		}
 		e.chain.SendAnswer = nil
 		e.chain.ArmNotifyRecvFailure(0)
@@ -705,7 +716,7 @@ func (w *spWorld) apply(st *spStep, a *spArgs, rep *common.Report) error {
 			} else {
 				w.checkCreated(what, tx, amount, a.Ins, true, a.Elig, a)
 			}
-			w.sendAcct[a.N] = a.Acct
+			w.sendAcct[a.N] = chgAcct(a.Acct)
 			w.recordSend(a.N, tx)
 		}
 	case "SendSelf":
@@ -720,7 +731,7 @@ func (w *spWorld) apply(st *spStep, a *spArgs, rep *common.Report) error {
 		amount := w.sumVal(a.Ins) - margin(a.N) - selfAmt
 		w.selfScr[a.N] = ownScr
 		outs := []*wire.TxOut{wire.NewTxOut(amount, w.foreign), wire.NewTxOut(selfAmt, ownScr)}
-		tx, err := e.w.SendOutputs(outs, &scope, uint32(a.Acct), int32(a.Mc), 1000, wallet.CoinSelectionLargest, "verif-label")
+		tx, err := e.w.SendOutputs(outs, &scope, acctNum(a.Acct), int32(a.Mc), 1000, wallet.CoinSelectionLargest, "verif-label")
 		w.lastErr, w.called = err, true
 		w.n++
 		if err != nil {
@@ -739,7 +750,7 @@ func (w *spWorld) apply(st *spStep, a *spArgs, rep *common.Report) error {
 		if err := w.verifySigs(tx); err != nil {
 			w.add("sig", what+": signature does not verify under the standard script flags", err.Error(), "valid")
 		}
-		w.sendAcct[a.N] = a.Acct
+		w.sendAcct[a.N] = chgAcct(a.Acct)
 		w.recordSend(a.N, tx)
 	case "SendDup":
 		// the same eligible output listed twice, for an amount one use cannot pay: any refusal is fine,
@@ -749,7 +760,7 @@ func (w *spWorld) apply(st *spStep, a *spArgs, rep *common.Report) error {
 		amount := w.outOf[a.C].Value + w.outOf[a.C].Value/2
 		outs := []*wire.TxOut{wire.NewTxOut(amount, w.foreign)}
 		sel := []wire.OutPoint{w.opOf[a.C], w.opOf[a.C]}
-		tx, err := e.w.SendOutputsWithInput(outs, &scope, uint32(a.Acct), int32(a.Mc), 1000, wallet.CoinSelectionLargest, "", sel)
+		tx, err := e.w.SendOutputsWithInput(outs, &scope, acctNum(a.Acct), int32(a.Mc), 1000, wallet.CoinSelectionLargest, "", sel)
 		w.n++
 		if err == nil {
 			seen := map[wire.OutPoint]bool{}
@@ -781,7 +792,7 @@ func (w *spWorld) apply(st *spStep, a *spArgs, rep *common.Report) error {
 		if err != nil {
 			return err
 		}
-		_, err = e.w.FundPsbt(pkt, &scope, int32(a.Mc), uint32(a.Acct), 1000, wallet.CoinSelectionLargest)
+		_, err = e.w.FundPsbt(pkt, &scope, int32(a.Mc), acctNum(a.Acct), 1000, wallet.CoinSelectionLargest)
 		got := "ok"
 		if err != nil {
 			got = "refused"
@@ -804,7 +815,7 @@ func (w *spWorld) apply(st *spStep, a *spArgs, rep *common.Report) error {
 			// (ComputeInputScript, which FinalizePsbt uses, is documented for P2WKH / nested P2WKH and handles
 			// P2TR; legacy P2PKH inputs are outside what the PSBT path supports - see DESIGN section 7)
 			if st.Ret == "ok" && a.Scope != "bip44" {
-				ferr := e.w.FinalizePsbt(&scope, uint32(a.Acct), pkt)
+				ferr := e.w.FinalizePsbt(&scope, acctNum(a.Acct), pkt)
 				w.n++
 				if ferr != nil {
 					w.add("sig", what+": FinalizePsbt of the funded packet", ferr.Error(), "finalised")
@@ -860,7 +871,7 @@ func (w *spWorld) apply(st *spStep, a *spArgs, rep *common.Report) error {
 			if try >= 4 {
 				strategy = wallet.CoinSelectionLargest
 			}
-			atx, err := e.w.CreateSimpleTx(&scope, uint32(a.Acct), outs, int32(a.Mc), 1000, strategy, true)
+			atx, err := e.w.CreateSimpleTx(&scope, acctNum(a.Acct), outs, int32(a.Mc), 1000, strategy, true)
 			w.n++
 			what := fmt.Sprintf("CreateSimpleTx dry run, random selection (acct %d, %s, minconf %d)", a.Acct, a.Scope, a.Mc)
 			if err != nil {
@@ -891,7 +902,7 @@ func (w *spWorld) apply(st *spStep, a *spArgs, rep *common.Report) error {
 		}
 		amount := min / 2
 		outs := []*wire.TxOut{wire.NewTxOut(amount, w.foreign)}
-		atx, err := e.w.CreateSimpleTx(&scope, uint32(a.Acct), outs, int32(a.Mc), 1000, wallet.CoinSelectionLargest, false,
+		atx, err := e.w.CreateSimpleTx(&scope, acctNum(a.Acct), outs, int32(a.Mc), 1000, wallet.CoinSelectionLargest, false,
 			wallet.WithCustomChangeScope(&cscope))
 		w.n++
 		if err != nil {
@@ -929,14 +940,16 @@ func (w *spWorld) apply(st *spStep, a *spArgs, rep *common.Report) error {
 			ma, err := e.w.AddressInfo(addrs[0])
 			if err != nil {
 				w.add("inputs", what+": change does not pay a wallet address", err.Error(), "wallet change address")
-			} else if !ma.Internal() || ma.InternalAccount() != uint32(a.Acct) {
+			} else if !ma.Internal() || ma.InternalAccount() != uint32(chgAcct(a.Acct)) {
 				w.add("inputs", what+": change address", fmt.Sprintf("internal=%v account=%d", ma.Internal(), ma.InternalAccount()),
-					fmt.Sprintf("internal=true account=%d", a.Acct))
+					fmt.Sprintf("internal=true account=%d", chgAcct(a.Acct)))
 			}
 		}
 	case "Restart":
 		return w.restart()
-	case "RestartRej":
+	case "Resync":
+		return w.resync()
+	case "RestartRej", "ResyncRej":
 		// the backend has evicted created transaction #n (and, with it, everything spending its change) and
 		// rejects its re-broadcast for a reason the wallet has no special case for
 		target := w.sendTx[a.N]
@@ -955,7 +968,12 @@ func (w *spWorld) apply(st *spStep, a *spArgs, rep *common.Report) error {
 			}
 			return mockchain.ErrDefaultAnswer
 		}
-		err := w.restart()
+		var err error
+		if st.Op == "ResyncRej" {
+			err = w.resync()
+		} else {
+			err = w.restart()
+		}
 		e.chain.SendAnswer = nil
 		return err
 	default:
@@ -980,6 +998,28 @@ func (w *spWorld) restart() error {
 	}
 	if err := e.w.Unlock(privPass, nil); err != nil {
 		return err
+	}
+	return nil
+}
+
+// resync re-establishes the backend connection of the running wallet
+// (ClientConnected) and waits for the re-broadcast that follows the
+// resynchronisation; the wallet is neither stopped nor locked.
+func (w *spWorld) resync() error {
+	e := w.e
+	if err := e.settle(); err != nil {
+		return err
+	}
+	for len(e.resend) > 0 {
+		<-e.resend
+	}
+	e.chain.SendLog(true)
+	e.chain.Attach()
+	if err := e.settle(); err != nil {
+		return err
+	}
+	if err := e.awaitResend(); err != nil {
+		w.add("resend", "no re-broadcast pass after the resynchronisation of the running wallet", err.Error(), "re-broadcast")
 	}
 	return nil
 }
@@ -1060,6 +1100,17 @@ func (w *spWorld) observe(exp *spObs) {
 					w.add("balance", fmt.Sprintf("%s: account %d", what, a), got, fmt.Sprintf("%d (coins %v)", want, sorted(byMc[mcs])))
 				}
 			}
+		}
+	}
+	// the user's outpoint locks: exactly those the model holds
+	isLocked := map[int]bool{}
+	for _, c := range exp.Locked {
+		isLocked[c] = true
+	}
+	for c, op := range w.opOf {
+		w.n++
+		if got := e.w.LockedOutpoint(op); got != isLocked[c] {
+			w.add("state", fmt.Sprintf("LockedOutpoint(coin %d)", c), got, isLocked[c])
 		}
 	}
 	// created transactions
